@@ -7,6 +7,7 @@ import (
 	"unicode/utf8"
 
 	"golang.org/x/net/internal/zzverif/vx"
+	"golang.org/x/text/unicode/norm"
 )
 
 // C50 — IDNA produces canonical A-labels and is idempotent.
@@ -316,6 +317,45 @@ func c50Check(w *vx.W, profs []c50Profile, cs c50Case) {
 	}
 }
 
+// c50NFCRunes is the alphabet of the "a-label-nfc" part: two base letters with
+// the combining mark each composes with (e + U+0301 = U+00E9, alef + U+0653 =
+// U+0622), the precomposed U+00E9, and runes after which the two marks either
+// compose too (s + U+0301 = U+015B) or never do (beh).
+var c50NFCRunes = []rune{'e', 0x0301, 's', 0x0628, 0x00e9, 0x0627, 0x0653}
+
+// c50NonNFC is the harness's own statement of "not in NFC" for strings over
+// c50NFCRunes: the string has a starter directly followed by the mark it
+// composes with. (The two marks have the same combining class, 230, so no
+// reordering and no composition across another mark can occur.) It is
+// self-checked against x/text's normalizer before use.
+func c50NonNFC(rs []rune) bool {
+	for i := 0; i+1 < len(rs); i++ {
+		switch [2]rune{rs[i], rs[i+1]} {
+		case [2]rune{'e', 0x0301}, [2]rune{'s', 0x0301}, [2]rune{0x0627, 0x0653}:
+			return true
+		}
+	}
+	return false
+}
+
+// c50CheckNFC: UTS 46 section 4.1 step 1 (V1): a label a validating profile
+// accepts is in NFC; this includes the decoded form of an A-label. Then the
+// clauses of c50Check.
+func c50CheckNFC(w *vx.W, profs []c50Profile, cs c50Case, nonNFC bool) {
+	pr := profs[cs.Profile]
+	if nonNFC && pr.class != "raw" {
+		if a, err := pr.p.ToASCII(cs.X); err == nil {
+			w.Failf("C50/a-label/non-nfc-accepted/"+pr.class, "%s.ToASCII(%q) = %q, nil although an xn-- label decodes to a string that is not in NFC (UTS 46 V1)", pr.name, cs.X, a)
+			return
+		}
+		if u, err := pr.p.ToUnicode(cs.X); err == nil {
+			w.Failf("C50/a-label/non-nfc-accepted/"+pr.class, "%s.ToUnicode(%q) = %q, nil although an xn-- label decodes to a string that is not in NFC (UTS 46 V1)", pr.name, cs.X, u)
+			return
+		}
+	}
+	c50Check(w, profs, cs)
+}
+
 // c50Labels is the label alphabet (simplest first).
 func c50Labels(thorough bool) []string {
 	l := []string{
@@ -354,6 +394,7 @@ func TestVerif_C50(t *testing.T) {
 			pn = append(pn, p.name)
 		}
 		c.Rule(fmt.Sprintf("names: every domain of 1 and 2 labels over the %d-label alphabet and every domain of 3 labels over its first %d labels, each with and without a trailing dot and with '.' or U+3002 as the separator, through every profile in %v. Alphabet: plain ASCII, hyphen placements, A-labels whose payload is empty / invalid (bad digit, truncated, overflow, > U+10FFFF, non-ASCII byte) / decodes to ASCII only / valid (lower, upper and mixed case prefix and digits), and Unicode labels (mapped, deviation, combining-first, non-NFC, joiner contexts, Hebrew, Arabic-Indic digits, astral). non-trivial = the name has an A-label or ToASCII accepted it (then idempotence and the ToUnicode round trip were compared)", len(labels), len(small), pn))
+		c.Rule(fmt.Sprintf("a-label-nfc: for every rune string s of length 1..4 over %U with at least one non-ASCII rune, the A-label xn--<reference RFC 3492 encoding of s> alone and as the first label of <label>.a, through every profile: when s is not in NFC (a starter directly followed by the mark it composes with - at the start, in the middle or at the end of s, followed by composing, inert ASCII, inert Arabic or no runes) every profile that validates labels must reject it in ToASCII and ToUnicode; all clauses of the names part apply as well", c50NFCRunes))
 		c.Rule("punycode: encode/decode on every rune string of length <= 3 (thorough 4) over {a, z, -, A, 0, U+80, ü, ő, U+7FF, U+800, 日, U+FFFF, U+10000, 😀, U+10FFFF}: decode(encode(s)) == s, encode(s) equals the reference RFC 3492 encoding; every ASCII payload of length <= 4 (thorough 5) over {a, b, k, z, 0, 9, -, A}: decode agrees with the reference decoder, and encode(decode(e)) == e when e is the reference encoding of its decoding")
 		c.Assume("accepts = returns a nil error (the API returns a best-effort string together with an error)")
 		c.Assume("a label counts as an A-label when it starts with lower-case \"xn--\" after splitting on '.'; for profiles that apply the UTS 46 mapping also after ASCII case folding and after mapping U+3002/U+FF0E/U+FF61 to '.' (other characters that map to ASCII are not recognised by the oracle)")
@@ -389,6 +430,40 @@ func TestVerif_C50(t *testing.T) {
 			}
 			vx.Strings(small, 3, 3, forms)
 		}, func(w *vx.W, cs c50Case) { c50Check(w, profs, cs) })
+
+		// (1b) A-labels whose decoded form is / is not in NFC, the non-NFC
+		// position first, in the middle and last.
+		type nfcCase struct {
+			c50Case
+			Decoded string `json:"decoded"`
+			NonNFC  bool   `json:"non_nfc"`
+		}
+		vx.Enumerate(c, "a-label-nfc", vx.Opts{}, func(yield func(nfcCase) bool) {
+			vx.Strings(c50NFCRunes, 1, 4, func(rs []rune) bool {
+				ascii := true
+				for _, r := range rs {
+					if r >= 0x80 {
+						ascii = false
+					}
+				}
+				if ascii {
+					return true
+				}
+				non := c50NonNFC(rs)
+				if norm.NFC.IsNormalString(string(rs)) == non {
+					t.Fatalf("harness NFC table broken: %+q non-NFC=%v", string(rs), non)
+				}
+				l := "xn--" + c50RefEncode(rs)
+				for _, x := range []string{l, l + ".a"} {
+					for i, p := range profs {
+						if !yield(nfcCase{c50Case{Profile: i, Name: p.name, X: x}, string(rs), non}) {
+							return false
+						}
+					}
+				}
+				return true
+			})
+		}, func(w *vx.W, cs nfcCase) { c50CheckNFC(w, profs, cs.c50Case, cs.NonNFC) })
 
 		// (3) punycode codec
 		runes := []rune{'a', 'z', '-', 'A', '0', 0x80, 'ü', 'ő', 0x7ff, 0x800, '日', 0xffff, 0x10000, 0x1f600, 0x10ffff}
